@@ -70,13 +70,17 @@ def _numeric_predicates(m, seed):
     out.append(("at_rest_general_accel_is_reaction_to_gravity", wa <= 2e-5, "max deviation %.3g m/s^2" % wa))
     # the three forms describe the same motion; integration reproduces the trajectory - both with errors that shrink with the interval
     orders_forms, orders_int, worst = [], [], 0.0
-    for k in range(3):
+    for k in range(4):
         lla0 = [float(rng.uniform(-60, 60)), float(rng.uniform(-170, 170)), float(rng.uniform(0, 3000))]
         v0 = (rng.randn(3) * [3.0, 3.0, 0.3]).tolist(); amp = (rng.rand(3) * [1.5, 1.5, 0.2]).tolist()
+        span, period = 20.0, 10.0
+        if k == 3:          # a fast out-and-back run that returns to its initial latitude (seeded change C03_1: the position of the third form is
+            v0 = [0.0, float(rng.uniform(-5, 5)), 0.0]          # found by an iteration whose convergence such a track can fake)
+            amp = [float(rng.uniform(60, 110)), 0.0, 0.0]; span = period = float(rng.choice([60.0, 120.0]))
         dform, dint = [], []
         for dt in (0.1, 0.05):
-            t = np.arange(0, 20.0 + dt / 2, dt)
-            vel = np.array(v0) + np.array(amp) * np.sin(2 * np.pi * t[:, None] / 10.0)
+            t = np.arange(0, span + dt / 2, dt)
+            vel = np.array(v0) + np.array(amp) * np.sin(2 * np.pi * t[:, None] / period)
             rph = np.zeros((len(t), 3)); rph[:, 2] = np.rad2deg(np.arctan2(vel[:, 1], vel[:, 0])); rph[:, 0] = 5 * np.sin(2 * np.pi * t / 7.0)
             trC, imuC = sim.generate_imu(t, lla0, rph, vel)                                   # initial position + velocity
             trA, imuA = sim.generate_imu(t, trC[['lat', 'lon', 'alt']].values, rph, vel)       # position + velocity
@@ -97,6 +101,26 @@ def _numeric_predicates(m, seed):
     out.append(("three_forms_same_motion", all(orders_forms) and worst <= 1e-3,
                 "difference does not grow beyond the round-off floor (1e-4) when the interval is halved: %s; largest reading difference %.3g at dt = 0.1" % (orders_forms, worst)))
     out.append(("integration_reproduces_trajectory_error_shrinks", (not orders_int or min(orders_int) >= 1), "measured orders %s" % (orders_int,)))
+    # increment-type readings are the integrals of the rate-type readings: a body turning at a constant rate at rest is represented by the
+    # splines without interpolation error, so the only deviation is the truncation of the closed-form integral, which is of THIRD order in
+    # the rotation over the interval; it is judged in units of (rotation)^2 x |f| (unchanged code: 0.003 - 0.005; a defect in the
+    # second-order term of the rotation series gives 1/6 - seeded change C03_2)
+    wi = 0.0
+    for k in range(3):
+        rate = float(rng.uniform(40, 90)); pitch = float(rng.uniform(-30, 30)); head = float(rng.uniform(-180, 180))
+        pos = [float(rng.uniform(-70, 70)), float(rng.uniform(-170, 170)), float(rng.uniform(0, 3000))]
+        for dt in (0.1, 0.05):
+            sub = 16
+            t = np.arange(0, 2.0 + dt / 2, dt); tf = np.arange(0, 2.0 + dt / (2 * sub), dt / sub)
+            rphof = lambda tt: np.column_stack([rate * tt, np.full(len(tt), pitch), np.full(len(tt), head)])
+            _, inc = sim.generate_imu(t, np.tile(pos, (len(t), 1)), rphof(t), sensor_type='increment')
+            _, rt = sim.generate_imu(tf, np.tile(pos, (len(tf), 1)), rphof(tf), sensor_type='rate')
+            a = rt[AC].values
+            w = np.ones(sub + 1); w[1:-1:2] = 4; w[2:-1:2] = 2; w *= dt / sub / 3          # composite Simpson over each sampling interval
+            integ = np.array([(w[:, None] * a[j * sub:(j + 1) * sub + 1]).sum(axis=0) for j in range(len(t) - 1)])
+            dev = float(np.abs(inc[AC].values[1:] - integ)[2:-2].max() / dt)
+            wi = max(wi, dev / ((math.radians(rate) * dt) ** 2 * 9.8))
+    out.append(("increments_are_integrals_of_rate_readings", wi <= 0.03, "largest deviation %.3g in units of (rotation per interval)^2 x g for constant-rate turns of 40 - 90 deg/s" % wi))
     return out
 
 
@@ -134,11 +158,11 @@ def check(rep, pid, tier, seed):
                 rep.violation("C03 numeric predicate %s does not hold: %s" % (name, detail), dict(mode="numeric", name=name, seed=sd_), key=name)
     rep.extra["numeric_predicate_rounds"] = len(rounds)
     rep.extra["numeric_predicates"] = [dict(name=n, holds=bool(h), detail=d) for n, h, d in preds]
-    rep.traces += len(cfgs) + 43
+    rep.traces += len(cfgs) + 47
     rep.evaluations += len(cfgs) + len(preds)
     for c in cfgs:
         rep.nontrivial.add(tuple(c[:4]))
-    rep.rule = "one configuration = (cardinal latitude, roll, pitch, heading quarter turns), both sensor types; plus 40 general at-rest states and 3 motions at two sampling intervals"
+    rep.rule = "one configuration = (cardinal latitude, roll, pitch, heading quarter turns), both sensor types; plus 40 general at-rest states, 4 motions (one a closed out-and-back run) and 3 constant-rate turns at two sampling intervals"
     rep.sample("equator, level, heading east: gyros read (0, -RATE, 0), accelerometers (0, 0, -g)")
 
 
